@@ -656,6 +656,31 @@ func c06RequestStateMachine(w *World, r *Report) {
 				ok = Derives(l, func(x ssa.Value) bool { return x == idx }) || strings.Contains(Path(l), Path(idx))
 			}
 		}
+		if !ok && len(hr) == 1 {
+			// accepted idiom: i := slices.IndexFunc(queue, func(e) bool { return e.value == item }); if i < 0 { return }
+			if c, isC := peel(hr[0].Common().Args[1]).(*ssa.Call); isC && isCallTo(c, "slices.IndexFunc") && len(c.Call.Args) == 2 {
+				pred := false
+				if mc, isMC := c.Call.Args[1].(*ssa.MakeClosure); isMC {
+					if pf, isF := mc.Fn.(*ssa.Function); isF {
+						alts := ReturnAlts(pf, 0)
+						pred = len(alts) == 1
+						for _, alt := range alts {
+							rel, isRel := NormCond(Cond{V: alt.Val, Pol: true})
+							l, rr := "", ""
+							if isRel {
+								l, rr = Path(rel.L), Path(rel.R)
+							}
+							isItem := func(p string) bool { return strings.TrimPrefix(p, "*") == "free:item" }
+							if !isRel || rel.Op != "==" || !(strings.HasSuffix(l, ".value") && isItem(rr) || strings.HasSuffix(rr, ".value") && isItem(l)) {
+								pred = false
+							}
+						}
+					}
+				}
+				op, _ := FindRel(Rels(hr[0].Block()), func(v ssa.Value) bool { return v == ssa.Value(c) }, func(v ssa.Value) bool { return isIntConst(v, 0) })
+				ok = pred && op == ">=" && strings.HasSuffix(Path(c.Call.Args[0]), ".queue")
+			}
+		}
 		r.Check(ok, "R6", "memoryQueue.Remove/removes-the-entry-of-that-id", rm.Pos(), "heap.Remove(i) executes only where queue[i].value == item")
 	}
 }
